@@ -27,6 +27,10 @@ func (x *Exec) execCall(f *Frame, i *ssa.Call) {
 		x.execSortSlice(f, i)
 		return
 	}
+	if callee != nil && callee.Pkg != nil && callee.Pkg.Pkg.Path() == "google.golang.org/protobuf/proto" && (callee.Name() == "Unmarshal" || callee.Name() == "Marshal") {
+		x.execProto(f, i, callee)
+		return
+	}
 	var binds []Val
 	if callee == nil {
 		// call of a function value
@@ -179,6 +183,9 @@ func (x *Exec) callContract(f *Frame, callee *ssa.Function, con *Contract, args 
 	for k, p := range callee.Params {
 		if k < len(args) {
 			vars[p.Name()] = TV{args[k], p.Type()}
+			if k == 0 && callee.Signature.Recv() != nil {
+				vars["self"] = TV{args[k], p.Type()}
+			}
 		}
 	}
 	if callee.Blocks == nil {
@@ -864,4 +871,55 @@ func (x *Exec) execSortSlice(f *Frame, i *ssa.Call) {
 	x.afterCall(f, "sort.Slice")
 	x.note("sort.Slice (external) is assumed to leave a permutation of its input ordered according to the contract of its comparison closure")
 	f.regs[i] = Val{}
+}
+
+// execProto models proto.Marshal / proto.Unmarshal (external, assumed): Marshal has no effect;
+// Unmarshal overwrites every field of the message it is given with unconstrained well-typed values
+// in which repeated message fields hold no nil element (what protobuf decoding guarantees).
+func (x *Exec) execProto(f *Frame, i *ssa.Call, callee *ssa.Function) {
+	args := i.Call.Args
+	x.note("google.golang.org/protobuf/proto Marshal/Unmarshal are assumed: Unmarshal havocs the message's fields (repeated message fields without nil elements), Marshal is effect-free")
+	res := callee.Signature.Results()
+	out := make([]Val, res.Len())
+	for k := 0; k < res.Len(); k++ {
+		t := x.b.Fresh("proto_"+callee.Name(), x.tm.SortOf(res.At(k).Type()))
+		x.assume(x.cur.reach, x.typeFact(t, res.At(k).Type(), x.cur.Alloc(x)))
+		out[k] = Val{T: t}
+	}
+	if callee.Name() == "Unmarshal" {
+		mi, ok := args[1].(*ssa.MakeInterface)
+		if !ok {
+			x.fail("proto.Unmarshal: message is not a concrete pointer converted in place")
+		}
+		pt, ok := mi.X.Type().Underlying().(*types.Pointer)
+		if !ok {
+			x.fail("proto.Unmarshal: message is not a pointer")
+		}
+		n, st := namedStruct(pt.Elem())
+		if st == nil || n == nil {
+			x.fail("proto.Unmarshal: message is not a struct")
+		}
+		ref := x.term(f, mi.X)
+		x.nilCheck(f, ref, i.Pos(), "proto.Unmarshal message")
+		a := x.cur.Alloc(x)
+		na := x.b.Fresh("alloc_after_Unmarshal", SInt)
+		x.assume(x.cur.reach, mk(SBool, "(>= %s %s)", na, a))
+		x.cur.heaps["$alloc"] = na
+		for k := 0; k < st.NumFields(); k++ {
+			fv := st.Field(k)
+			hn := x.fieldHeapName(n, fv)
+			h := x.cur.Heap(x, hn, ArraySort(SInt, x.tm.SortOf(fv.Type())))
+			nv := x.b.Fresh("decoded_"+fv.Name(), x.tm.SortOf(fv.Type()))
+			x.assume(x.cur.reach, x.typeFact(nv, fv.Type(), na))
+			x.cur.heaps[hn] = x.b.Def(hn, StoreT(h, ref, nv))
+			if sl, ok := fv.Type().Underlying().(*types.Slice); ok {
+				if _, isPtr := sl.Elem().Underlying().(*types.Pointer); isPtr {
+					q, _ := ParseExpr("forall i$ int :: 0 <= i$ && i$ < len($s) ==> $s[i$] != nil")
+					env := x.newEnv(map[string]TV{"$s": {nv, fv.Type()}}, x.cur.clone(), x.entry)
+					x.addQhyp(x.cur, qhyp{mark: x.b.Mark(), guard: x.cur.reach, expr: q, env: env, src: "decoded repeated field " + fv.Name() + " has no nil element"})
+				}
+			}
+		}
+	}
+	x.bindCallResult(f, i, callee.Signature, out)
 }
